@@ -58,6 +58,21 @@ def visible(media, at, patterns):
     return out
 
 
+def visible_below(media, at, patterns, folder):
+    """what a walk that STARTS at `folder` (named with -sf) meets: the entries below it of which neither the path itself
+    nor a folder between it and `folder` is excluded - `folder` itself and the folders above it are not asked"""
+    sp = spec_of(patterns)
+    k = len(folder.split("/")) if folder else 0
+    out = {}
+    for p, v in entries_below(media, at).items():
+        parts = p.split("/")
+        if folder and parts[:k] != folder.split("/") or len(parts) <= k:
+            continue
+        if not any(sp.match_file("/".join(parts[: i + 1])) for i in range(k, len(parts))):
+            out[p] = v
+    return out
+
+
 def history_roots(asc):
     """directories (relative to the scenario root, '' for the root) that have an ascmhl folder"""
     roots = set()
